@@ -3397,7 +3397,8 @@ class TensorDict(TensorDictBase):
         if keys_to_exclude is not None:
             for key, cur_keys in keys_to_exclude.items():
                 val = _tensordict.get(key)
-                if val is not None:
+                # a nested key that runs through a leaf designates nothing: nothing to exclude
+                if val is not None and _is_tensor_collection(type(val)):
                     val = val._exclude(
                         *cur_keys, inplace=inplace, set_shared=set_shared
                     )
